@@ -56,50 +56,19 @@ structure Good (res : ER) (v : Rat) : Prop where
   value : toRat res = v
   canon : ERCanon res
   lowest : Nat.gcd (EDec.toNat res.num.d) (EDec.toNat res.den.d) = 1
+  zeroPos : EDec.toNat res.num.d = 0 → res.neg = false
 
 theorem good_of_pre {pre : ER} {v : Rat} (hc : ERCanon pre) (hv : toRat pre = v) : Good (normalize pre) v := by
-  obtain ⟨h1, h2, _, h4, _, _⟩ := normalize_spec hc
-  exact ⟨by rw [h1, hv], h2, h4⟩
+  obtain ⟨h1, h2, h3, h4, _, _⟩ := normalize_spec hc
+  exact ⟨by rw [h1, hv], h2, h4, fun h0 => by rw [h3, if_pos h0]⟩
 
 /-- the object `normalize()` is applied to -/
 def preOf (e f : ED) : ER := { neg := e.neg, num := if e.neg then EDec.neg e else e, den := f }
 
-/-- no "negative zero" operand: the sign flag is clear when the numerator is zero -/
-def NNZ (x : ER) : Prop := ¬ (x.neg = true ∧ EDec.toNat x.num.d = 0)
-
-theorem nz_signedNum {x : ER} (h : NNZ x) (hn : x.num.neg = false) : NZ (signedNum x) := by
-  unfold signedNum
-  split
-  · rename_i hx
-    intro ⟨_, h2⟩
-    exact h ⟨hx, by simpa [EDec.neg] using h2⟩
-  · exact nz_of_nonneg hn
-
-theorem mul_nz {a b : ED} (ha : ECanon a) (hb : ECanon b) : NZ (EDec.mul a b) := by
-  intro ⟨h1, h2⟩
-  have hs := mul_spec ha hb
-  unfold EDec.mul at h1 h2 hs
-  by_cases hz : (EDec.isZero a || EDec.isZero b) = true
-  · simp [hz, EDec.zero] at h1
-  · simp only [hz, Bool.false_eq_true, if_false] at h1 h2 hs
-    have ha0 : EDec.toNat a.d ≠ 0 := by
-      intro h0; apply hz; simp [(isZero_iff a).mpr h0]
-    have hb0 : EDec.toNat b.d ≠ 0 := by
-      intro h0; apply hz; simp [(isZero_iff b).mpr h0]
-    have e := hs.1
-    have hne : EDec.toInt a * EDec.toInt b ≠ 0 := by
-      apply Int.mul_ne_zero
-      · unfold EDec.toInt; split <;> simp <;> omega
-      · unfold EDec.toInt; split <;> simp <;> omega
-    apply hne
-    rw [← e]
-    simp [EDec.toInt, h2]
-
 /-- structure of `+=` / `-=`: `normalize()` applied to the signed cross-multiplied numerator `e` over `f`. -/
 theorem addsub_shape (isSub : Bool) {x r : ER} (hx : ERCanon x) (hr : ERCanon r) :
     ∃ e f : ED, addsub isSub x r = normalize (preOf e f) ∧ ECanon e ∧ PosCanon f ∧ 0 < EDec.toNat f.d ∧
-      (EDec.toInt e : Rat) / (EDec.toNat f.d : Rat) = (if isSub then toRat x - toRat r else toRat x + toRat r) ∧
-      (NNZ x → NNZ r → NZ e) := by
+      (EDec.toInt e : Rat) / (EDec.toNat f.d : Rat) = (if isSub then toRat x - toRat r else toRat x + toRat r) := by
   have hDx : (EDec.toNat x.den.d : Rat) ≠ 0 := by exact_mod_cast (Nat.pos_iff_ne_zero.mp hx.2.2)
   have hDr : (EDec.toNat r.den.d : Rat) ≠ 0 := by exact_mod_cast (Nat.pos_iff_ne_zero.mp hr.2.2)
   have ha := ecanon_signedNum hx.1.1
@@ -116,14 +85,12 @@ theorem addsub_shape (isSub : Bool) {x r : ER} (hx : ERCanon x) (hr : ERCanon r)
     cases isSub with
     | true =>
       have hn := sub_spec ha hc
-      refine ⟨EDec.sub (signedNum x) (signedNum r), x.den, rfl, hn.2, hx.2.1, hx.2.2, ?_,
-        fun h1 _ => sub_nz ha hc (nz_signedNum h1 hx.1.2)⟩
+      refine ⟨EDec.sub (signedNum x) (signedNum r), x.den, rfl, hn.2, hx.2.1, hx.2.2, ?_⟩
       rw [hn.1, toRat_signed hx, toRat_signed hr, ← hdd]
       simp only [sN, if_true]; push_cast; field_simp
     | false =>
       have hn := add_spec ha hc
-      refine ⟨EDec.add (signedNum x) (signedNum r), x.den, rfl, hn.2, hx.2.1, hx.2.2, ?_,
-        fun h1 _ => add_nz ha hc (nz_signedNum h1 hx.1.2)⟩
+      refine ⟨EDec.add (signedNum x) (signedNum r), x.den, rfl, hn.2, hx.2.1, hx.2.2, ?_⟩
       rw [hn.1, toRat_signed hx, toRat_signed hr, ← hdd]
       simp only [sN, Bool.false_eq_true, if_false]; push_cast; field_simp
   · simp only [heq, Bool.false_eq_true, if_false]
@@ -135,21 +102,21 @@ theorem addsub_shape (isSub : Bool) {x r : ER} (hx : ERCanon x) (hr : ERCanon r)
     | true =>
       have he := sub_spec hm1.2 hm2.2
       simp only [if_true]
-      refine ⟨_, _, rfl, he.2, hf, hf0, ?_, fun _ _ => sub_nz hm1.2 hm2.2 (mul_nz ha hr.2.1.1)⟩
+      refine ⟨_, _, rfl, he.2, hf, hf0, ?_⟩
       rw [he.1, hm1.1, hm2.1, hfv, toRat_signed hx, toRat_signed hr,
         toInt_nonneg_of hx.2.1.2, toInt_nonneg_of hr.2.1.2]
       simp only [sN]; push_cast; field_simp
     | false =>
       have he := add_spec hm1.2 hm2.2
       simp only [Bool.false_eq_true, if_false]
-      refine ⟨_, _, rfl, he.2, hf, hf0, ?_, fun _ _ => add_nz hm1.2 hm2.2 (mul_nz ha hr.2.1.1)⟩
+      refine ⟨_, _, rfl, he.2, hf, hf0, ?_⟩
       rw [he.1, hm1.1, hm2.1, hfv, toRat_signed hx, toRat_signed hr,
         toInt_nonneg_of hx.2.1.2, toInt_nonneg_of hr.2.1.2]
       simp only [sN]; push_cast; field_simp
 
 theorem addsub_spec (isSub : Bool) {x r : ER} (hx : ERCanon x) (hr : ERCanon r) :
     Good (addsub isSub x r) (if isSub then toRat x - toRat r else toRat x + toRat r) := by
-  obtain ⟨e, f, h1, h2, h3, h4, h5, _⟩ := addsub_shape isSub hx hr
+  obtain ⟨e, f, h1, h2, h3, h4, h5⟩ := addsub_shape isSub hx hr
   obtain ⟨p1, p2, _⟩ := pre_spec e f h2 h3 h4
   rw [h1]
   exact good_of_pre p1 (by rw [← h5]; exact p2)
@@ -158,39 +125,26 @@ theorem digits_of_value {y : ED} (hy : ECanon y) {v : Nat} (hv : v < 10) (h : ED
   have hc : ECanon (EDec.ofDigit v) := ecanon_ofDigit hv
   exact toNat_inj_canon hy.1 hc.1 hy.2 hc.2 (by simp [h, EDec.toNat])
 
-/-- a zero sum / difference is printed `0/1` (operands without a negative zero). -/
-theorem addsub_zero_text (isSub : Bool) {x r : ER} (hx : ERCanon x) (hr : ERCanon r) (hnx : NNZ x) (hnr : NNZ r)
-    (hz : (if isSub then toRat x - toRat r else toRat x + toRat r) = 0) : toText (addsub isSub x r) = "0/1" := by
-  obtain ⟨e, f, h1, h2, h3, h4, h5, h6⟩ := addsub_shape isSub hx hr
-  have hnz := h6 hnx hnr
-  rw [hz] at h5
-  have hf : (EDec.toNat f.d : Rat) ≠ 0 := by exact_mod_cast (Nat.pos_iff_ne_zero.mp h4)
-  have he0 : EDec.toInt e = 0 := by
-    have := (div_eq_zero_iff.mp h5).resolve_right hf
-    exact_mod_cast this
-  have hE : EDec.toNat e.d = 0 := by
-    unfold EDec.toInt at he0; split at he0 <;> omega
-  have hen : e.neg = false := by
-    cases hh : e.neg with
-    | false => rfl
-    | true => exact absurd ⟨hh, hE⟩ hnz
-  obtain ⟨p1, _, p3⟩ := pre_spec e f h2 h3 h4
-  obtain ⟨_, n2, n3, _, n5, n6⟩ := normalize_spec p1
-  rw [h1]
-  have hnum0 : EDec.toNat (normalize (preOf e f)).num.d = 0 := by
-    rw [show (normalize (preOf e f)) = normalize { neg := e.neg, num := if e.neg then EDec.neg e else e, den := f } from rfl, n5, p3, hE]
-    simp
-  have hden1 : EDec.toNat (normalize (preOf e f)).den.d = 1 := by
-    rw [show (normalize (preOf e f)) = normalize { neg := e.neg, num := if e.neg then EDec.neg e else e, den := f } from rfl, n6, p3, hE]
-    simp only [Nat.gcd_zero_left]
-    exact Nat.div_self h4
-  have hneg : (normalize (preOf e f)).neg = false := by
-    rw [show (normalize (preOf e f)).neg = e.neg from n3, hen]
-  have n2' : ERCanon (normalize (preOf e f)) := n2
-  have hnd := digits_of_value n2'.1.1 (by decide) hnum0
-  have hdd := digits_of_value n2'.2.1.1 (by decide) hden1
+/-- a result that is zero is printed `0/1`: no sign (535b52e), numerator digit 0, denominator 1 (lowest terms). -/
+theorem good_zero_text {res : ER} {v : Rat} (g : Good res v) (hv : v = 0) : toText res = "0/1" := by
+  have hc := g.canon
+  have hval := g.value
+  rw [hv, toRat_eq hc.1.2 hc.2.1.2] at hval
+  have hD : (EDec.toNat res.den.d : Rat) ≠ 0 := by exact_mod_cast (Nat.pos_iff_ne_zero.mp hc.2.2)
+  have hN0 : EDec.toNat res.num.d = 0 := by
+    rcases mul_eq_zero.mp hval with h | h
+    · split at h <;> norm_num at h
+    · have := (div_eq_zero_iff.mp h).resolve_right hD
+      exact_mod_cast this
+  have hneg := g.zeroPos hN0
+  have hD1 : EDec.toNat res.den.d = 1 := by
+    have := g.lowest
+    rw [hN0, Nat.gcd_zero_left] at this
+    exact this
+  have hnd := digits_of_value hc.1.1 (by decide) hN0
+  have hdd := digits_of_value hc.2.1.1 (by decide) hD1
   unfold toText EDec.toDecimal
-  rw [hneg, n2'.1.2, n2'.2.1.2, hnd, hdd]
+  rw [hneg, hc.1.2, hc.2.1.2, hnd, hdd]
   decide
 
 theorem sign_mul (a b : Bool) : ((if (a != b) then -1 else 1 : Rat)) = (if a then -1 else 1) * (if b then -1 else 1) := by
@@ -274,5 +228,16 @@ theorem history_spec : ∀ (ops : List Op) (x : ER), ERCanon x → (∀ o ∈ op
     simp only [runAll, exactAll] at ih ⊢
     rw [← g.value]
     exact ⟨ih.1, ih.2.1, fun _ => ih.2.2 (by simp)⟩
+
+/-- after a non-empty history the object is `Good` for the exact value of the chain. -/
+theorem history_good : ∀ (ops : List Op) (x : ER), ERCanon x → (∀ o ∈ ops, o.Ok) → ops ≠ [] →
+    Good (runAll x ops) (exactAll (toRat x) ops)
+  | [], _, _, _, h => absurd rfl h
+  | [o], x, hx, hok, _ => step_spec x o hx (hok o (List.mem_cons_self ..))
+  | o :: o' :: os, x, hx, hok, _ => by
+    have g := step_spec x o hx (hok o (List.mem_cons_self ..))
+    have ih := history_good (o' :: os) (o.run x) g.canon (fun p hp => hok p (List.mem_cons_of_mem _ hp)) (by simp)
+    simp only [runAll, exactAll] at ih ⊢
+    rw [← g.value]; exact ih
 
 end UVerif.ERat
